@@ -311,7 +311,7 @@ class Reader:
             raise IOError("Reader not open; call `open` before `read`")
         if not self.meta:
             _logger.warning("Sync trace not labeled in metadata. Assuming last trace")
-            return split_sync(self._raw[_slice, -1])
+            return split_sync(self._raw[_slice, [-1]])
         return split_sync(
             self._raw[_slice, _get_sync_trace_indices_from_meta(self.meta)]
         )
